@@ -99,6 +99,11 @@ func c11RouteDiff(parsed map[string][]string) string {
 
 // ------------------------------------------------------------------ result
 
+// c11Cfg: like the other API tiers, but with a non-zero PostMessageCooloff: the throttle of a session
+// (ThrottleUntil, called by the POST handler) is state a refused request must leave alone as well, and
+// with a zero cooloff it never changes
+var c11Cfg = strings.Replace(vCfgFast, `PostMessageCooloff = "0s"`, `PostMessageCooloff = "3ms"`, 1)
+
 type c11Viol struct {
 	Sig   string   `json:"sig"`
 	Desc  string   `json:"desc"`
@@ -560,7 +565,7 @@ func (r *c11Run) history(hist string, w *c11World) {
 			post(w.U, "PRIVMSG "+w.ch+" :"+m)
 			w.contentGone = false
 		case "config":
-			if resp := n.setConfig(strings.Replace(vCfgFast, `"30m"`, fmt.Sprintf(`"%dm"`, 31+(w.k+oi)%20), 1)); resp.Code != 200 {
+			if resp := n.setConfig(strings.Replace(c11Cfg, `"30m"`, fmt.Sprintf(`"%dm"`, 31+(w.k+oi)%20), 1)); resp.Code != 200 {
 				r.fail("history config: %d %s", resp.Code, resp.Body)
 			}
 		case "snapshot":
@@ -1218,7 +1223,7 @@ func (r *c11Run) privateUnit(hist, ppath string) {
 		case route == "/config" && method != "GET":
 			g := r.n.admin("GET", "/config", nil, "")
 			hdr["X-RobustIRC-Config-Revision"] = g.Header.Get("X-RobustIRC-Config-Revision")
-			return strings.Replace(vCfgFast, `"30m"`, `"45m"`, 1), hdr
+			return strings.Replace(c11Cfg, `"30m"`, `"45m"`, 1), hdr
 		case route == "/join" || route == "/part":
 			return `{"Addr":"intruder.example:13001"}`, hdr
 		case route == "/kill":
@@ -1434,7 +1439,7 @@ func TestVerifC11(t *testing.T) {
 		return
 	}
 	r.n = n
-	if resp := n.setConfig(vCfgFast); resp.Code != 200 {
+	if resp := n.setConfig(c11Cfg); resp.Code != 200 {
 		res.HarnessErr = fmt.Sprintf("HARNESS: config: %d %s", resp.Code, resp.Body)
 		write()
 		return
